@@ -752,3 +752,6 @@ func (p *Prog) ReachingStores(load *ssa.UnOp) (vals []ssa.Value, complete bool) 
 	}
 	return vals, complete
 }
+
+// ClosureOf returns the MakeClosure that creates function literal fn.
+func (p *Prog) ClosureOf(fn *ssa.Function) *ssa.MakeClosure { return p.parents[fn] }
